@@ -27,6 +27,18 @@ func (dec *Decoder) checkCount(count int) int {
 	return count
 }
 
+// minPrealloc is how many elements a container reserves on the word of the wire alone; beyond
+// that it grows as the elements really arrive.
+const minPrealloc = 16
+
+// sizeHint bounds a size hint that comes from the wire.
+func sizeHint(count int) int {
+	if count > minPrealloc {
+		return minPrealloc
+	}
+	return count
+}
+
 // ReadCount reads an element count (see ReadInt) and validates it.
 func (dec *Decoder) ReadCount() int {
 	return dec.checkCount(dec.ReadInt())
